@@ -10,7 +10,7 @@
    not proved (see design/C19.md). *)
 From Coq Require Import List NArith Bool.
 From GQ Require Import Model.C19 Proofs.C19_Lists Proofs.C19_Struct Proofs.C19_Ops Proofs.C19_Heap
-  Proofs.C19_State Proofs.C19_Contig Proofs.C19_Limits Proofs.C19_QLimit Proofs.C19.
+  Proofs.C19_State Proofs.C19_Contig Proofs.C19_Limits Proofs.C19_QLimit Proofs.C19_Cache Proofs.C19_QPay Proofs.C19.
 Import ListNotations.
 Local Open Scope N_scope.
 
@@ -141,6 +141,74 @@ Theorem chain_state_follows_head : forall c p o qo,
 Proof. exact step_st. Qed.
 Print Assumptions chain_state_follows_head.
 
+(* ---- the cached thresholds of txList (costcap / gascap) ----
+   The pool model uses the plain nonce-sorted list; the real txList short-circuits Filter on
+   two cached upper bounds.  cap_ok l: every transaction of the list costs <= costcap and uses
+   <= gascap gas. *)
+
+(* Under the cache invariant the short-circuiting Filter returns exactly what the plain
+   Filter returns and leaves exactly the same list, and the invariant holds afterwards. *)
+Theorem list_cache_filter_exact : forall strict bal maxgas l removed invalids l',
+  cap_ok l -> cl_filter strict bal maxgas l = (removed, invalids, l') ->
+  l_filter strict bal maxgas (cl_txs l) = (removed, invalids, cl_txs l') /\ cap_ok l'.
+Proof. exact filter_step_lemma. Qed.
+Print Assumptions list_cache_filter_exact.
+
+(* Every operation of txList the pool uses (Add incl. same-nonce replacement, Filter, Forward,
+   Remove, Cap, Ready; strict or not; any price bump) preserves the cache invariant, returns
+   what the plain list returns and leaves the plain list's content. *)
+Theorem list_cache_invariant_preserved : forall strict bump l o l' res,
+  cap_ok l -> cl_step strict bump l o = (l', res) ->
+  l_step strict bump (cl_txs l) o = (cl_txs l', res) /\ cap_ok l'.
+Proof. exact cl_step_refines. Qed.
+Print Assumptions list_cache_invariant_preserved.
+
+(* Hence the cache is transparent on every list that evolves from newTxList: invariant, same
+   content as the plain list after any operation sequence, same result of the next operation. *)
+Theorem cached_list_transparent : forall strict bump ops o,
+  let l := cl_run strict bump ops in
+  cap_ok l /\ cl_txs l = l_run_ops strict bump ops /\
+  snd (cl_step strict bump l o) = snd (l_step strict bump (cl_txs l) o) /\
+  cl_txs (fst (cl_step strict bump l o)) = fst (l_step strict bump (cl_txs l) o) /\
+  cap_ok (fst (cl_step strict bump l o)).
+Proof. exact cached_list_transparent_lemma. Qed.
+Print Assumptions cached_list_transparent.
+
+(* What demoteUnexecutables / promoteExecutables rely on: after Filter(balance, gas limit) of
+   any such list every remaining transaction is payable and within the gas limit. *)
+Theorem filtered_list_payable : forall strict bump ops bal maxgas removed invalids l',
+  cl_filter strict bal maxgas (cl_run strict bump ops) = (removed, invalids, l') ->
+  forall t, In t (cl_txs l') -> cost t <= bal /\ t_gas t <= maxgas.
+Proof. exact reachable_filter_sound_lemma. Qed.
+Print Assumptions filtered_list_payable.
+
+(* The invariant is necessary: on a list whose cost threshold was not raised by a more
+   expensive replacement, Filter keeps a transaction the balance cannot pay. *)
+Theorem stale_cache_filter_unsound :
+  cap_okb stale_cap_witness = false /\
+  exists strict bal maxgas removed invalids l' t,
+    cl_filter strict bal maxgas stale_cap_witness = (removed, invalids, l') /\ In t (cl_txs l') /\ bal < cost t.
+Proof. exact stale_cap_unsound_lemma. Qed.
+Print Assumptions stale_cache_filter_unsound.
+
+(* Every transaction the pool holds -- queued as well as pending -- is payable from its
+   sender's balance and within the block gas limit, in every reachable state (validateTx on
+   entry; on a head event promoteExecutables filters every queue and demoteUnexecutables
+   re-queues only what passed its filter). *)
+Theorem pooled_transactions_payable : forall c price_limit st h a t,
+  let p := run_hist c (init price_limit st) h in
+  In t (aget a (p_pend p)) \/ In t (aget a (p_queue p)) ->
+  cost t <= st_bal p a /\ t_gas t <= s_maxgas (p_st p).
+Proof. exact reachable_lists_payable. Qed.
+Print Assumptions pooled_transactions_payable.
+
+(* Inductive form: from any state satisfying the invariants in which every indexed
+   transaction is payable, one step leads to such a state. *)
+Theorem pooled_payable_preserved : forall c p o qo,
+  IWT p /\ all_pay p -> IWT (fst (step c p o qo)) /\ all_pay (fst (step c p o qo)).
+Proof. exact lists_payable_preserved. Qed.
+Print Assumptions pooled_payable_preserved.
+
 (* non-vacuity *)
 Example pool_state_nonvacuous :
   map t_nonce (aget 0 (p_pend nv_pool)) = [0; 1] /\ map t_nonce (aget 0 (p_queue nv_pool)) = [3]
@@ -163,3 +231,14 @@ Proof. exact queue_limit_nonvacuous. Qed.
 Example gap_witness_nonvacuous :
   map t_nonce (aget 0 (p_pend (run_hist w_cfg (init 5 w_st0) w_gap_history))) = [0; 2].
 Proof. exact gap_witness. Qed.
+Example list_cache_nonvacuous :
+  cl_run true 10 cache_history = CL [T 0 0 10 21000 4000000; T 0 1 20 21000 6000000] 6420000 21000
+  /\ cap_okb (cl_run true 10 cache_history) = true
+  /\ cl_filter true 5790000 5000000 (cl_run true 10 cache_history)
+     = ([T 0 1 20 21000 6000000], [], CL [T 0 0 10 21000 4000000] 5790000 5000000)
+  /\ cl_filter true 6420000 5000000 (cl_run true 10 cache_history) = ([], [], cl_run true 10 cache_history).
+Proof. exact cache_nonvacuous_lemma. Qed.
+Example queued_payable_nonvacuous :
+  aget 0 (p_queue (run_hist qp_cfg (init 1 (St [] [(0,10000000)] 1 5000000)) (qp_hist 420500))) = [T 0 2 10 21000 1000; T 0 3 20 21000 500]
+  /\ aget 0 (p_queue (run_hist qp_cfg (init 1 (St [] [(0,10000000)] 1 5000000)) (qp_hist 420499))) = [T 0 2 10 21000 1000].
+Proof. exact qp_nonvacuous_lemma. Qed.
